@@ -93,6 +93,62 @@ func (p *Proc) stateLine(w *World, procs []*Proc, withResults bool) string {
 	return s
 }
 
+var keepTracker = -1
+
+// KeepTracker probes the code under test once: does refetchAndMergeClosure keep the lock ids of re-tracked items
+// (the repaired closure) or issue fresh ones (the pinned tree)? The answer goes into every case header, Model L
+// has both behaviours.
+func KeepTracker() (bool, error) {
+	if keepTracker >= 0 {
+		return keepTracker == 1, nil
+	}
+	w, err := NewWorld(8, true, []int{10, 20, 30}, func(int) int { return 1 })
+	if err != nil {
+		return false, err
+	}
+	defer w.Close()
+	a, err := w.Spawn(0, Prog{Ops: []Op{{Kind: "upd", Key: 10, Val: 2}}})
+	if err != nil {
+		return false, err
+	}
+	b, err := w.Spawn(1, Prog{Ops: []Op{{Kind: "upd", Key: 20, Val: 3}}})
+	if err != nil {
+		return false, err
+	}
+	for i := 0; i < 4; i++ { // b: work, first read, set, verify -> parked at its page lock
+		if err := b.Step(); err != nil {
+			return false, err
+		}
+	}
+	for i := 0; i < 40 && !a.Done(); i++ {
+		if err := a.Step(); err != nil {
+			return false, err
+		}
+	}
+	// b: lock ok, validation fails, unlock, lock(nil), refetch -> parked at the first read of the second lock()
+	for i := 0; i < 6 && !b.Done(); i++ {
+		if err := b.Step(); err != nil {
+			return false, err
+		}
+	}
+	keep := true
+	for _, n := range b.gens {
+		if n > 1 {
+			keep = false
+		}
+	}
+	for i := 0; i < 40 && !b.Done(); i++ {
+		if err := b.Step(); err != nil {
+			return false, err
+		}
+	}
+	keepTracker = 0
+	if keep {
+		keepTracker = 1
+	}
+	return keep, nil
+}
+
 // Run executes the case on the real code and buffers the protocol lines.
 func Run(c Case) (*Outcome, error) {
 	w, err := NewWorld(c.Slot, true, c.Keys, func(int) int { return c.Val })
@@ -276,7 +332,11 @@ func (o *Outcome) OutOfScope() string {
 
 // Emit writes the buffered case into the session (header, items, programs, steps, end).
 func (o *Outcome) Emit(s *hx.Session, c Case) {
-	s.BeginCase(fmt.Sprintf("unique=1 maxretry=30 slot=%d label=%s", c.Slot, c.Label))
+	kt := 0
+	if keepTracker == 1 {
+		kt = 1
+	}
+	s.BeginCase(fmt.Sprintf("unique=1 maxretry=30 keeptracker=%d slot=%d label=%s", kt, c.Slot, c.Label))
 	for _, it := range o.W.Init {
 		s.Op(fmt.Sprintf("item %d %d %d %d %d", it.Item, it.Key, it.Val, it.Ver, it.Page), "ok")
 	}
